@@ -94,6 +94,9 @@ def lower_unit(u, outdir):
             f = lower_ext.request_region(L, n, t)
         else:
             f = L.request_fn(n, t['cname'])
+            if t.get('ret'):
+                # declared return type spelled through an alias chain the AST leaves unresolved (iterator_traits<..>::reference)
+                f.ret_hint = L.parse_type(t['ret'])
             if t.get('ctor_as_method'):
                 f.ctor_as_method = True
             if t.get('truncate_after'):
